@@ -335,6 +335,7 @@ func genSub(rt *rapid.T) Sub {
 	c.Cfg.SndBuf = rapid.SampledFrom(bufs).Draw(rt, "sndbuf")
 	c.Cfg.RcvBuf = rapid.SampledFrom(bufs).Draw(rt, "rcvbuf")
 	c.Cfg.Chunk = rapid.SampledFrom([]int{0, 0, 1, 1, 2, 7, 64, 512}).Draw(rt, "viewchunk")
+	c.Cfg.Pad = rapid.SampledFrom([]int{0, 0, 0, 46, 46, 1, 4, 18}).Draw(rt, "linkpad")
 	size := func(label string) int {
 		return rapid.OneOf(rapid.IntRange(0, 3), rapid.IntRange(1, 3000), rapid.IntRange(1, 20000), rapid.IntRange(20000, 120000)).Draw(rt, label)
 	}
@@ -421,6 +422,14 @@ func genSub(rt *rapid.T) Sub {
 		r.Action = rapid.SampledFrom([]string{"drop", "drop", "dup", "hold", "replay"}).Draw(rt, "action")
 		r.N = rapid.SampledFrom([]int{1, 2, 3, 10, 50}).Draw(rt, "n")
 		c.Cfg.Prog.Rules = append(c.Cfg.Prog.Rules, r)
+	}
+	// transmit faults: the sending link endpoint refuses a frame (WritePacket returns an error)
+	if rapid.SampledFrom([]int{0, 0, 0, 1, 1, 2}).Draw(rt, "nrefuse") > 0 {
+		for i, n := 0, rapid.IntRange(1, 2).Draw(rt, "nrefuse2"); i < n; i++ {
+			c.Cfg.Prog.Rules = append(c.Cfg.Prog.Rules, netsim.Rule{Dir: rapid.IntRange(0, 1).Draw(rt, "rdir"),
+				Key:  rapid.SampledFrom([]string{"DATA", "DATA", "ACK", "FIN", "SYN", "SYNACK", "ANY"}).Draw(rt, "rkind"),
+				Skip: rapid.SampledFrom([]int{0, 0, 1, 3, 8}).Draw(rt, "rskip"), Count: rapid.IntRange(1, 3).Draw(rt, "rcount"), Action: "refuse"})
+		}
 	}
 	rate := rapid.SampledFrom([]int{0, 0, 10, 50, 200}).Draw(rt, "bgrate")
 	if rate > 0 {
